@@ -63,6 +63,7 @@ struct HookState {
     fault_all: Option<LpFault>,
     log_enabled: bool,
     log: Vec<LpEvent>,
+    pending: Option<(Array2<f64>, Array1<f64>, Array1<f64>)>,
 }
 
 thread_local! {
@@ -81,6 +82,7 @@ pub fn arm(plan: HashMap<usize, LpFault>, fault_all: Option<LpFault>, log: bool)
         s.fault_all = fault_all;
         s.log_enabled = log;
         s.log.clear();
+        s.pending = None;
     });
 }
 
@@ -95,6 +97,13 @@ pub fn disarm() -> (usize, Vec<LpEvent>) {
         let log = std::mem::take(&mut s.log);
         (s.counter, log)
     })
+}
+
+/// The query ``(mat, bias, cost)`` that was handed to the real solver and has not
+/// returned yet. After a panic inside the solver this is the instance that caused it
+/// (recorded whenever the hook is armed).
+pub fn pending_query() -> Option<(Array2<f64>, Array1<f64>, Array1<f64>)> {
+    STATE.with(|s| s.borrow().pending.clone())
 }
 
 /// Number of LP calls observed since the hook was armed.
@@ -149,6 +158,7 @@ pub fn lp_hook(poly: &Polytope, coeffs: &Array1<f64>) -> Option<PolytopeStatus> 
             false
         } else {
             s.reentrant = true;
+            s.pending = Some((poly.mat.clone(), poly.bias.clone(), coeffs.clone()));
             true
         }
     });
@@ -161,6 +171,7 @@ pub fn lp_hook(poly: &Polytope, coeffs: &Array1<f64>) -> Option<PolytopeStatus> 
     STATE.with(|s| {
         let mut s = s.borrow_mut();
         s.reentrant = false;
+        s.pending = None;
         let index = s.counter;
         s.counter += 1;
         let fault = s.plan.get(&index).cloned().or_else(|| s.fault_all.clone());
